@@ -250,6 +250,12 @@ def seeds(seed=0, kinds=None):
         cells.append(cell)
     P2 = np.array(sorted(pts, key=pts.get), dtype=float).T
     add('H2', 'MeshHex1', frustum(P2), np.array(cells).T)
+    # two hexahedra with NON-planar (bilinear) faces: one vertex of the shared face and one outer vertex displaced
+    Pn = np.array(P2, dtype=float)
+    sh = {tuple(Pn[:, k]): k for k in range(Pn.shape[1])}
+    Pn[:, sh[(1., 1., 1.)]] += np.array([.125, .0625, .125])
+    Pn[:, sh[(2., 0., 1.)]] += np.array([0., -.125, .25])
+    add('Hnp', 'MeshHex1', Pn, np.array(cells).T)
     pts = {}
     cells = []
     for cx in range(2):
